@@ -100,6 +100,8 @@ def case(draw):
         c["variant"] = draw(st.sampled_from(["negative_small", "negative", "increase_small", "increase"]))
         c["index"] = draw(st.integers(0, n - 1))
         c["target"] = draw(st.sampled_from(["validate_score_vector", "score_profile_from_rankings", "Borda"]))
+        # the invalid vector is the very list object that was just accepted, edited in place
+        c["same_object"] = draw(st.booleans())
         cands, bl = draw(complete_profile(n, n))
         c.update(cands=cands, ballots=bl)
     elif kind == "rating_limits":
@@ -332,7 +334,16 @@ def check(case):
             for j in range(i + 1, len(bad)):
                 bad[j] = min(bad[j], bad[i])
         tgt = case["target"]
-        if tgt == "validate_score_vector":
+        if case.get("same_object") and tgt != "Borda":
+            new_vals = list(bad)
+            bad = vec
+            fn = U.validate_score_vector if tgt == "validate_score_vector" else (lambda v_: U.score_profile_from_rankings(prof, v_))
+            v, exc, _ = E.call(fn, vec)
+            if exc is not None:
+                out.fail(kind, f"valid_rejected_{type(exc).__name__}", f"{vec}: {exc!r}")
+            vec[:] = new_vals
+            v, exc, _ = E.call(fn, vec)
+        elif tgt == "validate_score_vector":
             v, exc, _ = E.call(U.validate_score_vector, vec)
             if exc is not None:
                 out.fail(kind, f"valid_rejected_{type(exc).__name__}", f"{vec}: {exc!r}")
